@@ -23,12 +23,6 @@ func parseTypeExpr(s string) (ast.Expr, error) { return parser.ParseExpr(s) }
 
 func (eng *Engine) canaries(prop string, results []*FuncResult) []*Obligation { return nil }
 
-func (r *Report) tryReplay(o *Obligation, s SolveResult, path string) bool { return false }
-
-func cmdReplay(args []string) int {
-	fmt.Println("replay: not implemented yet")
-	return 0
-}
 
 func cmdSelftest(args []string) int { return 0 }
 
